@@ -133,6 +133,8 @@ def rule_solve_one(ctx: Ctx, prog: Program, want: Tuple[str, ...] = ("R-SOLUTION
                 okk = len(bts) >= 1 and f.decide(cmp_cond("==", _call_result(bp.events, bts[-1]), ZERO)) is True and is_b is False and is_u is False
                 if okk:
                     ctx.ok("R-SOLUTION", f"{a.mode}: None only after a failed backtrack on an inconsistent state")
+                elif any(e.kind == "store" and e.root in fn.params and e.root != P["statistics"] for e in bp.events) and is_u is True and "dom" not in ic:
+                    ctx.ok("R-SOLUTION", f"{a.mode}: None with a mark left in a parameter when there is no room to branch (whether every caller reads the mark: R-CAPACITY refusal-not-reported)")
                 else:
                     ctx.violation("R-SOLUTION", fn.path, "solve_one", "none-return", f"{fn.path}:{_line(bp)}",
                                   f"solve_one ({a.mode}) gives up (returns None) on a path other than 'inconsistent and nothing left to backtrack to'")
@@ -284,10 +286,70 @@ def rule_solve_one(ctx: Ctx, prog: Program, want: Tuple[str, ...] = ("R-SOLUTION
                                           f"pass) and nothing on that loop's own path ensures stacks_top[0] + {max_push} < len(shr_domains_stack) before each call: the guard "
                                           "of the enclosing iteration is evaluated once, the pushes repeat -- a search deeper than stack_max_height writes past the "
                                           "stacks (compiled code has no bounds check) instead of raising")
+        # the refusal itself: on the path where the guard finds no room, the search must not end like an exhausted search
+        if "R-CAPACITY" in want:
+            _refusal_is_reported(ctx, prog, a, PU)
         ctx.floor(f"solve_one:{a.mode}:solution-paths", n_sol, 1)
         ctx.floor(f"solve_one:{a.mode}:choice-paths", n_choice, 1)
         if "R-SOLUTION" in want:
             ctx.floor(f"R-SOLUTION:{a.mode}:backtrack-paths", n_bt, 2)
+
+
+def _refusal_is_reported(ctx: Ctx, prog: Program, a: "SolveOne", PU: int) -> None:
+    """With the status 'not solved, not failed' an iteration either branches or refuses (no room for a push).  A refusal that raises is
+    reported by construction.  A refusal that *returns* looks, to every caller, like the end of an exhausted search -- unless it leaves a
+    mark (a flag array among the parameters) and every function that calls solve_one looks at that mark."""
+    fn, it, P = a.fn, a.it, a.P
+    for bp in a.loop.paths:
+        ic = _classify(a, bp)
+        if "alg" not in ic or "dom" in ic or bp.outcome != "return":
+            continue
+        status = _call_result(bp.events, ic["alg"])
+        if bp.state.facts.decide(cmp_cond("==", status, K(PU))) is not True:
+            continue
+        marks = sorted({e.root for e in bp.events if e.kind == "store" and e.root in fn.params and e.root != P["statistics"]})
+        if not marks:
+            ctx.violation("R-CAPACITY", fn.path, "solve_one", "refusal-not-reported", f"{fn.path}:{_line(bp)}",
+                          f"solve_one ({a.mode}): when there is no room for a push the search returns (as it does when it is exhausted) instead of raising, "
+                          "and leaves no mark: a search deeper than stack_max_height ends as 'no more solutions'")
+            continue
+        pos = {m: fn.params.index(m) for m in marks}
+        missing: List[str] = []
+        n_callers = 0
+        for g in prog.all_functions():
+            if g.njit or g.fq == fn.fq:
+                continue
+            for c in ast.walk(g.node):
+                if not (isinstance(c, ast.Call) and isinstance(c.func, ast.Name) and c.func.id == fn.name):
+                    continue
+                n_callers += 1
+                for m, k in pos.items():
+                    if k >= len(c.args):
+                        missing.append(g.qualname)
+                        continue
+                    txt = ast.unparse(c.args[k])
+                    inside = {id(y) for y in ast.walk(c)}
+
+                    def looks(node: ast.AST, skip: set) -> bool:
+                        return any(id(y) not in skip and isinstance(y, (ast.Attribute, ast.Name, ast.Subscript)) and ast.unparse(y) == txt and isinstance(getattr(y, "ctx", None), ast.Load)
+                                   for y in ast.walk(node))
+                    ok_ = looks(g.node, inside)
+                    if not ok_ and g.cls:
+                        for y in ast.walk(g.node):
+                            if isinstance(y, ast.Call) and isinstance(y.func, ast.Attribute) and isinstance(y.func.value, ast.Name) and y.func.value.id == "self":
+                                h = prog.modules[g.module].classes.get(g.cls, {}).get(y.func.attr)
+                                if h is not None and looks(h.node, set()):
+                                    ok_ = True
+                    if not ok_:
+                        missing.append(g.qualname)
+        if missing:
+            for who in sorted(set(missing)):
+                ctx.violation("R-CAPACITY", fn.path, who, "refusal-not-reported", f"{fn.path}:{_line(bp)}",
+                              f"solve_one ({a.mode}) no longer raises when there is no room for a push: it sets '{marks[0]}' and returns like an exhausted search; "
+                              f"{who} calls it and never looks at that mark -- there a search deeper than stack_max_height ends as 'no (more) solution' "
+                              "(a partial enumeration, a non-optimal optimum) without any error")
+        else:
+            ctx.ok("R-CAPACITY", f"{a.mode}: a refused push is marked in '{marks[0]}' and each of the {n_callers} callers of solve_one looks at the mark")
 
 
 def _nonneg(facts, top: Aff):
@@ -601,7 +663,7 @@ def rule_resume(ctx: Ctx, prog: Program) -> None:
                 other = []
             n += 1
             if none is True:
-                okk = not delivered and not bt and bp.outcome in ("break", "return")
+                okk = not delivered and not bt and bp.outcome in ("break", "return", "raise")  # (leaving by an error is leaving)
                 _rv(ctx, fn, name, okk, "exhausted: leave the loop without delivering or backtracking", "stop-when-exhausted",
                     f"{name}: when the search reports no solution the loop must end (no delivery, no backtrack)")
             elif none is False:
@@ -632,22 +694,40 @@ def rule_resume(ctx: Ctx, prog: Program) -> None:
             if deliver == "put":
                 pass
         ctx.floor(f"R-RESUME:{name}:iteration-paths", n, 3)
-        args_ok = True
-        for bp in loop.paths:
-            for so in calls_named(bp.events, "solve_one"):
-                if not _solve_one_args_ok(so):
-                    args_ok = False
+        args_ok = _solve_one_args_ok(prog, fn.qualname)
         _rv(ctx, fn, name, args_ok, "solve_one receives this solver's arrays by role", "solve-one-args", f"{name}: an argument of solve_one is bound to a parameter of another role")
 
 
-def _solve_one_args_ok(e: Event) -> bool:
-    exp = ["self.statistics", "self.problem.algorithms", "self.problem.var_bounds", "self.problem.param_bounds", "self.problem.dom_indices_arr",
-           "self.problem.dom_offsets_arr", "self.problem.props_dom_indices", "self.problem.props_dom_offsets", "self.problem.props_parameters",
-           "self.problem.triggers", "self.shr_domains_stack", "self.not_entailed_propagators_stack", "self.dom_update_stack", "self.stacks_top",
-           "self.triggered_propagators", "self.consistency_alg_idx", "self.decision_domains", "self.var_heuristic_idx", "self.var_heuristic_params",
-           "self.dom_heuristic_idx", "self.dom_heuristic_params"]
-    a = [as_view(x) for x in e.args]
-    return len(a) == 25 and a[:21] == [View(x, ()) for x in exp]
+def _solve_one_arg_lists(prog: Program) -> Dict[str, List[str]]:
+    """caller qualname -> the source text of the arguments it passes to solve_one (first call site)."""
+    c = getattr(prog, "_so_args", None)
+    if c is None:
+        c = {}
+        for g in prog.all_functions():
+            if g.njit:
+                continue
+            for x in ast.walk(g.node):
+                if isinstance(x, ast.Call) and isinstance(x.func, ast.Name) and x.func.id == "solve_one" and g.qualname not in c:
+                    c[g.qualname] = [ast.unparse(a_) for a_ in x.args]
+        prog._so_args = c  # type: ignore[attr-defined]
+    return c
+
+
+def _solve_one_args_ok(prog: Program, caller: str) -> bool:
+    """The callers of solve_one are siblings: each hands over this solver's arrays in the same order.  A caller whose argument list differs
+    from the one most callers use has bound an array to a parameter of another role (compared among callers, so that neither a renamed
+    nor an added parameter of solve_one is an alarm)."""
+    lists = _solve_one_arg_lists(prog)
+    mine = lists.get(caller)
+    if mine is None or len(lists) < 2:
+        return False
+    counts: Dict[Tuple[str, ...], int] = {}
+    for v in lists.values():
+        counts[tuple(v)] = counts.get(tuple(v), 0) + 1
+    best = max(counts.items(), key=lambda kv: kv[1])
+    if best[1] * 2 <= len(lists):
+        raise AnalysisError("solve_one: its callers do not agree on an argument list (no majority to compare with)")
+    return tuple(mine) == best[0]
 
 
 def _rv(ctx: Ctx, fn: FuncInfo, name: str, okk: bool, inst: str, key: str, msg: str) -> None:
